@@ -362,6 +362,12 @@ func (ex *Exec) trCall(e *SExpr, env *Env) *Val {
 			return &Val{T: eq(x.T, "anyNil"), S: SBool}
 		}
 		return &Val{T: eq(x.T, "0"), S: SBool}
+	case "nonNil": // non-nil pointer, or non-nil interface holding a non-nil pointer
+		x := arg(0)
+		if x.S.K == KAny {
+			return &Val{T: "(and (not (= " + x.T + " anyNil)) (> (refOf " + x.T + ") 0))", S: SBool}
+		}
+		return &Val{T: "(> " + x.T + " 0)", S: SBool}
 	case "isType": // isType(x, "*Via")
 		x := arg(0)
 		id := ex.typeIDByName(e.Args[1].Name)
